@@ -85,3 +85,14 @@ func SQLKind(query string) int { return 0 }
 
 // Deadlocked reports whether RunThreads ended with unfinished threads and none runnable.
 func Deadlocked() bool { return false }
+
+// String-domain helpers.
+func ReaderBytes(r any) []byte        { return nil }
+func Dec(n uint64) string             { return "" }
+func LenLE(s string, n int) bool      { return false }
+func InRe(s string, kind string) bool { return false }
+func ToInt(s string) uint64           { return 0 }
+func FitsU64(s string) bool           { return false }
+
+// AssumeNoCRLF assumes (and lets the engine exploit syntactically) that s contains no CR or LF.
+func AssumeNoCRLF(s string) {}
